@@ -68,27 +68,27 @@ func decodeEvents(evs sdk.Events) evCount {
 			c.leaseClosed[t.ID]++
 		case dtypes.EventDeploymentCreated:
 			if t.ID.Owner == addr(0) {
-				c.depCreated[t.ID.DSeq]++
+				c.depCreated[logicalDSeq(t.ID.DSeq)]++
 			}
 		case dtypes.EventDeploymentUpdated:
 			if t.ID.Owner == addr(0) {
-				c.depUpdated[t.ID.DSeq]++
+				c.depUpdated[logicalDSeq(t.ID.DSeq)]++
 			}
 		case dtypes.EventDeploymentClosed:
 			if t.ID.Owner == addr(0) {
-				c.depClosed[t.ID.DSeq]++
+				c.depClosed[logicalDSeq(t.ID.DSeq)]++
 			}
 		case dtypes.EventGroupClosed:
 			if t.ID.Owner == addr(0) {
-				c.grpClosed[gk{t.ID.DSeq, int(t.ID.GSeq)}]++
+				c.grpClosed[gk{logicalDSeq(t.ID.DSeq), int(t.ID.GSeq)}]++
 			}
 		case dtypes.EventGroupPaused:
 			if t.ID.Owner == addr(0) {
-				c.grpPaused[gk{t.ID.DSeq, int(t.ID.GSeq)}]++
+				c.grpPaused[gk{logicalDSeq(t.ID.DSeq), int(t.ID.GSeq)}]++
 			}
 		case dtypes.EventGroupStarted:
 			if t.ID.Owner == addr(0) {
-				c.grpStarted[gk{t.ID.DSeq, int(t.ID.GSeq)}]++
+				c.grpStarted[gk{logicalDSeq(t.ID.DSeq), int(t.ID.GSeq)}]++
 			}
 		default:
 			c.undecodable++
